@@ -56,6 +56,7 @@ def gen_plan(seed, tier):
         op = {'op': 'new', 'slot': s, 'kind': kind, 'k': rng.choice(KS)}
         if kind == 'Logging':
             op['interval'] = rng.choice([1, 1, 1, 2, 3]); op['file'] = 'log%d.txt' % s
+            op['new_file'] = rng.random() < 0.5       # LoggingMonitor(new=True): start the log file afresh
         ops.append(op)
     nops = rng.randint(3, 25 if tier == 'quick' else 40)
     live = list(range(nslots)); nxt = nslots
@@ -279,7 +280,7 @@ def _run(plan, run, violate, stats):
                 k = op['k']; kw = {} if k is None else {'k': k}
                 if op['kind'] == 'Monitor': m = mm.Monitor(**kw)
                 elif op['kind'] == 'Verbose': m = mm.VerboseMonitor(1, **kw)
-                else: m = mm.LoggingMonitor(op.get('interval', 1), filename=fs.path(op['file']), **kw)
+                else: m = mm.LoggingMonitor(op.get('interval', 1), filename=fs.path(op['file']), new=bool(op.get('new_file')), **kw)
                 mons[op['slot']] = m
                 r = Ref(op['kind'], k, op.get('file'), op.get('interval', 1)); r.lossy = False
                 refs[op['slot']] = r
